@@ -120,14 +120,22 @@ def main():
         return mod.run(args, seed, t0, cases, known, problems, notes, discharged, axioms_used)
 
     both = getattr(mod, "ASSERTION_SETTINGS", (False,))
-    drv = core.run_driver(cases)
-    impl_runs = {a: core.run_impl(cases, args.repo, assertions=a) for a in both}
     judge = getattr(mod, "judge", default_judge)
     classify = getattr(mod, "known_class", lambda case, impl, d: None)
-
     prop_fail, corr_fail, known_hit, model_gap = [], [], {}, []
-    for a, impl_res in impl_runs.items():
-        for c, r, d in zip(cases, impl_res, drv):
+    impl_runs = {}
+    drv = None
+    for a in both:
+        if len(both) > 1 or a:
+            cases_a = [dict(c, asrt=bool(a)) if "asrt" in c else c for c in cases]
+        else:
+            cases_a = cases
+        drv_a = core.run_driver(cases_a)
+        impl_res = core.run_impl(cases_a, args.repo, assertions=a)
+        impl_runs[a] = impl_res
+        if drv is None:
+            drv = drv_a
+        for c, r, d in zip(cases_a, impl_res, drv_a):
             p_ok, c_ok = judge(c, r, d)
             if p_ok and c_ok:
                 continue
@@ -142,8 +150,9 @@ def main():
                 corr_fail.append(rec)
     # sanity: mirror and spec must agree outside the known classes (it is proved); a difference that
     # the implementation does not share is a harness bug
+    ms_ok = getattr(mod, "mirror_spec_ok", lambda c, d: d["mirror"] == d["spec"])
     for c, d in zip(cases, drv):
-        if d["mirror"] != d["spec"] and not getattr(mod, "PREDICATE_SPEC", False):
+        if not ms_ok(c, d):
             kid = classify(c, d["mirror"], d)
             if kid is None:
                 model_gap.append({"case": c, "mirror": d["mirror"], "spec": d["spec"]})
